@@ -815,6 +815,15 @@ def check(run, replay=None):
         run.inconclusive.append('data layout differs')
         return
     run.extra['explanation'] = __doc__
+    run.bounds += ['piece placement: strings of ANY length (one loop trip from an arbitrary loop state + init + exit wiring: induction over the string)',
+                   'castling field of 1..4 characters from KQkq-; side-to-move field w|b; en-passant field - or [a-h][36]',
+                   'counters: strings of 1..4 decimal digits with value <= 6000 (the property asks for clocks <= 150 and move numbers <= 6000)',
+                   'history / build / Inv link: arbitrary builder contents (all 64-bit sets, flags and counters symbolic)']
+    run.outside += ['invalid FEN strings (the property speaks of valid ones)', 'str::parse and split_ascii_whitespace themselves (std, used through their contracts)',
+                    'the position log (empty after loading: repetition history is not part of a FEN)',
+                    'the composition of the lemmas (substitution of equals along the straight-line chain in from_fen; written in DESIGN.md, not solver-checked)']
+    run.stubs |= {'the readers are composed by from_fen in the order checked by WIRE', 'ZKey::from(&Board) as an uninterpreted key of the built board (its relation to the incremental key is C04)',
+                  'characters are ASCII (FEN alphabet)'}
     jobs = [('PLACE-STEP',), ('PLACE-EXIT',), ('PLACE-INIT',), ('TURN',), ('EP',)] + [('CLOCK', w_, k_) for w_ in ('halfmove_clock', 'fullmove_counter') for k_ in (1, 2, 3, 4)]
     jobs += [('CASTLE', L) for L in (1, 2, 3, 4)]
     jobs += [('HIST',), ('BUILD',), ('INV', B.WHITE), ('INV', B.BLACK), ('WIRE', 4), ('WIRE', 5), ('WIRE', 6)]
